@@ -18,8 +18,14 @@ advertised network is in the plan the recording pipe received, before NSLIST/GO,
 """
 import io
 import ipaddress
+import os
+import shutil
 import struct
+import subprocess
 import sys
+import tempfile
+import threading
+import time
 import zlib
 
 import common
@@ -74,6 +80,7 @@ KEY_BAREHOST = 'C17:iproute:bare-host-route-omitted'
 KEY_BIG = 'C17:delivery:routes-message-exceeds-one-frame'
 KEY_DELIV = 'C17:delivery:advertised-networks-not-in-plan'
 KEY_CLIENT = 'C17:client:onroutes'
+KEY_HANG = 'C17:delivery:routes-never-announced'
 
 FIXED_INCLUDE = [(2, '192.0.2.0', 24, 0, 0), (10, '2001:db8::', 32, 80, 90)]
 FIXED_EXCLUDE = [(2, '127.0.0.1', 32, 0, 0)]
@@ -176,9 +183,62 @@ ARGV = {'i': ['ip', 'route'], 'b': ['ip', 'route'], 'n': ['netstat', '-rn']}
 MODEL_TOOL = {'i': 'i', 'n': 'n', 'x': 'x', 'b': 'i'}
 
 
-def run_server(tool, output):
-    """The real `server.main(auto_nets=True)` up to and including `mux.send(0, CMD_ROUTES, …)`.
-    Returns ('sent', wire_bytes, routes_payload) or ('raise', name, wire_bytes_so_far)."""
+REAL_POPEN = subprocess.Popen          # taken before anything is patched
+CAT = shutil.which('cat')
+HANG_TIMEOUT = 8.0                     # seconds a real-process server.main may take before it counts as hung
+
+
+class RealToolPopen:
+    """`ssubprocess.Popen(argv, stdout=PIPE, env=...)` answered by a REAL child process that writes the
+    table to a REAL pipe (so the OS pipe buffer, blocking writes and wait() behave as in production)."""
+    path = None
+    children = []
+
+    def __new__(cls, argv, stdout=None, env=None, **kw):
+        FakePopen.calls.append(list(argv))
+        if CAT:
+            cmd = [CAT, RealToolPopen.path]
+        else:
+            cmd = [sys.executable, '-c', 'import sys,shutil; shutil.copyfileobj(open(sys.argv[1],"rb"), sys.stdout.buffer)',
+                   RealToolPopen.path]
+        child = REAL_POPEN(cmd, stdout=stdout, stdin=subprocess.DEVNULL, close_fds=True)
+        RealToolPopen.children.append(child)
+        return child
+
+
+def reap_children():
+    """Kill and reap every tool process still around; close our ends of their pipes."""
+    killed = 0
+    for ch in RealToolPopen.children:
+        if ch.poll() is None:
+            killed += 1
+            try:
+                ch.kill()
+            except OSError:
+                pass
+        try:
+            ch.wait(timeout=10)
+        except Exception:  # noqa
+            pass
+    return killed
+
+
+def close_children():
+    for ch in RealToolPopen.children:
+        try:
+            if ch.stdout:
+                ch.stdout.close()
+        except Exception:  # noqa
+            pass
+    RealToolPopen.children = []
+
+
+def run_server(tool, output, verbose=0, real=False):
+    """The real `server.main(auto_nets=True)` up to and including `mux.send(0, CMD_ROUTES, …)`, with the
+    server-side verbosity `verbose` (what `sshuttle -v` forwards).  `real=False`: the routing tool is an
+    in-memory Popen stand-in; `real=True`: it is a child process writing to a pipe, `server.main` runs in a
+    thread and a run longer than HANG_TIMEOUT is reported as ('hang', seconds).
+    Returns (status, wire): status = ('sent',) | ('raise', name) | ('hang', secs)."""
     ssnet, client, server, helpers = _mods()
     p = Patches()
     muxes = []
@@ -198,27 +258,52 @@ def run_server(tool, output):
     FakePopen.calls = []
     old_stdout, old_stderr = sys.stdout, sys.stderr
     old_prefix = helpers.logprefix
+    tmp = None
     try:
+        if real:
+            fd, tmp = tempfile.mkstemp(prefix='c17-table-')
+            with os.fdopen(fd, 'wb') as f:
+                f.write(output)
+            RealToolPopen.path = tmp
+            RealToolPopen.children = []
         p.set(ssnet, 'set_non_blocking_io', lambda fd: None)
-        p.set(server.ssubprocess, 'Popen', FakePopen)
+        p.set(server.ssubprocess, 'Popen', RealToolPopen if real else FakePopen)
         p.set(server, 'which', lambda name, *a: ('/sbin/' + name) if name in TOOLS[tool] else None)
         p.set(server, 'io', fio)
         p.set(server, 'Mux', RecMux)
         p.set(server, 'Hostwatch', StopHostwatch)
         sys.stdout = out
         sys.stderr = io.StringIO()
-        status = None
+        helpers.verbose = verbose
+        box = {}
+
+        def body():
+            try:
+                server.main(True, ssnet.LATENCY_BUFFER_SIZE, False, None, True)
+                box['status'] = ('raise', 'returned')
+            except _Stop:
+                box['status'] = ('sent',)
+            except BaseException as e:  # noqa  (AssertionError, ValueError, SystemExit …: the server process ends)
+                box['status'] = ('raise', excname(e))
         try:
-            server.main(True, ssnet.LATENCY_BUFFER_SIZE, False, None, True)
-            status = ('raise', 'returned')
-        except _Stop:
-            status = ('sent',)
-        except BaseException as e:  # noqa  (AssertionError, ValueError, SystemExit …: the server process ends)
-            status = ('raise', excname(e))
+            if real:
+                t0 = time.time()
+                th = threading.Thread(target=body, daemon=True)
+                th.start()
+                th.join(HANG_TIMEOUT)
+                hung = th.is_alive()
+                if hung:
+                    reap_children()          # unblocks a server stuck in wait()/read()
+                    th.join(20)
+                    box['status'] = ('hang', '%.0f' % (time.time() - t0)) if not th.is_alive() else ('hang', 'thread-stuck')
+            else:
+                body()
         finally:
+            helpers.verbose = 0
             sys.stdout, sys.stderr = old_stdout, old_stderr
+        status = box.get('status', ('raise', 'no-status'))
         wire = out.data.encode('latin-1')
-        if muxes:
+        if muxes and status[0] != 'hang':
             m = muxes[0]
             guard = 0
             while m.outbuf and guard < 1000:
@@ -228,8 +313,17 @@ def run_server(tool, output):
         return status, wire
     finally:
         p.restore()
+        helpers.verbose = 0
         helpers.logprefix = old_prefix
         sys.stdout, sys.stderr = old_stdout, old_stderr
+        if real:
+            reap_children()
+            close_children()
+            if tmp:
+                try:
+                    os.unlink(tmp)
+                except OSError:
+                    pass
 
 
 def line_real(tool, line):
@@ -641,6 +735,24 @@ def minimal_table(nroutes):
 
 # ------------------------------------------------------------------ cases
 
+def big_table(nroutes):
+    """`nroutes` verbose iproute2 lines (~70 bytes each: 3000 routes = ~210 kB of tool output, far more than a
+    pipe buffer) whose advertisement (~15 bytes each) still fits one frame up to ~4300 routes."""
+    lines, intents = [b'default via 192.168.1.1 dev wlan0 proto dhcp metric 600\n'], [('omit',)]
+    for i in range(nroutes):
+        a, b = divmod(i, 250)
+        c = (i * 7) % 256
+        lines.append(b'10.%d.%d.%d/24 dev eth%d proto kernel scope link src 10.%d.%d.1 metric %d\n'
+                     % (a + 1, b, c, i % 4, a + 1, b, 100 + i % 5))
+        intents.append(('route', '10.%d.%d.%d' % (a + 1, b, c), 24))
+        if i % 50 == 0:
+            lines.append(b'unreachable 10.250.%d.0/24 metric 1024\n' % (i // 50))
+            intents.append(('omit',))
+    lines.append(b'127.0.0.0/8 dev lo scope host\n')
+    intents.append(('route', '127.0.0.0', 8))
+    return lines, intents
+
+
 class CaseLog:
     def __init__(self, kind):
         self.kind = kind
@@ -657,8 +769,9 @@ def split_lines(output):
     return list(io.BytesIO(output))
 
 
-def table_case(ctx, tool, lines, intents, flags, perline=True, label='table'):
-    """One routing table end to end.  `intents[i]` belongs to `lines[i]` (None = whole-table expectation only)."""
+def table_case(ctx, tool, lines, intents, flags, perline=True, label='table', verbose=0, real=False, regen=None):
+    """One routing table end to end.  `intents[i]` belongs to `lines[i]`.  `verbose`: server-side verbosity;
+    `real`: the routing tool is a real child process on a real pipe; `regen`: how replay rebuilds a big table."""
     ssnet, client, server, helpers = _mods()
     output = b''.join(lines)
     log = CaseLog(label)
@@ -680,14 +793,29 @@ def table_case(ctx, tool, lines, intents, flags, perline=True, label='table'):
     else:
         for ln in lines:
             log.ins.append('q ' + hexb(ln))
-    status, wire = run_server(tool, output)
+    status, wire = run_server(tool, output, verbose=verbose, real=real)
+    ctx.hist('server:verbose=%d:%s' % (verbose, 'real-process' if real else 'in-memory'))
     if FakePopen.calls[:1] != ([ARGV[tool]] if tool != 'x' else []):
         ctx.violation('C17:list_routes:wrong-tool', case=dict(stream='tool', tool=tool), expected='argv %r' % ARGV.get(tool),
                       observed='Popen calls %r' % FakePopen.calls[:3], kind='input')
     exp = [e for e in (expected_of(it) for it in intents) if e is not None] if tool != 'x' else []
     strict = all(it[0] != 'lenient' for it in intents)
     known_gap = [expected_of(it) for it in intents if it[0] == 'barehost' and expected_of(it)]
-    if status[0] == 'sent':
+    tcase = dict(stream='table', tool=tool, flags=flags, verbose=verbose, real=real, regen=regen,
+                 table=None if regen else hexb(output), strict=strict,
+                 expect=None if regen else [list(e) for e in exp], gap=[list(e) for e in known_gap])
+    if status[0] == 'hang':
+        log.add('end ' + flags, 'pkt hang')
+        log.ins.append(None)
+        log.outs.append('client -')
+        ctx.hist('delivery:hang')
+        ctx.violation(KEY_HANG, case=tcase,
+                      expected='the ROUTES message is sent and the firewall is started with the %d networks '
+                               '(%d bytes of tool output through a real pipe)' % (len(exp), len(output)),
+                      observed='server.main had not reached the ROUTES message after %.0f s with the routing tool as a real child '
+                               'process (it returned only after the tool was killed, %s s): the advertisement is never sent'
+                               % (HANG_TIMEOUT, status[1]), kind='input')
+    elif status[0] == 'sent':
         assert wire.startswith(SYNC)
         # frames on the wire: PING then ROUTES
         body = wire[len(SYNC):]
@@ -708,7 +836,7 @@ def table_case(ctx, tool, lines, intents, flags, perline=True, label='table'):
         log.add('end ' + flags, head)
         log.ins.append(None)                     # `end` answers with two lines
         log.outs.append('client ' + cr.show())
-        delivery_oracle(ctx, tool, output, flags, exp, known_gap, strict, payload, cr, len(routes_frames))
+        delivery_oracle(ctx, tcase, exp, known_gap, strict, cr, len(routes_frames))
     else:
         name = status[1]
         payload_len = sum(len('2,%s,%d\n' % e) for e in exp)
@@ -716,12 +844,15 @@ def table_case(ctx, tool, lines, intents, flags, perline=True, label='table'):
             # which payload did the builder try to send?  recompute from the real list_routes
             FakePopen.output = output
             p = Patches()
+            old_err = sys.stderr
             try:
+                sys.stderr = io.StringIO()
                 p.set(server.ssubprocess, 'Popen', FakePopen)
                 p.set(server, 'which', lambda nm, *a: ('/sbin/' + nm) if nm in TOOLS[tool] else None)
                 rts = list(server.list_routes())
             finally:
                 p.restore()
+                sys.stderr = old_err
             pl = ''.join('%d,%s,%d\n' % r for r in rts).encode()
             log.add('end ' + flags, 'pkt routes=%d len=%d adler=%d raise AssertionError' % (len(rts), len(pl), zlib.adler32(pl)))
             log.ins.append(None)
@@ -729,7 +860,7 @@ def table_case(ctx, tool, lines, intents, flags, perline=True, label='table'):
             big = len(pl) > 65535
             ctx.hist('delivery:assert')
             ctx.violation(KEY_BIG if big else KEY_DELIV,
-                          case=dict(stream='table-size', tool=tool, nlines=len(lines), payload_len=len(pl),
+                          case=dict(stream='table-size', tool=tool, nlines=len(lines), payload_len=len(pl), verbose=verbose,
                                     routes=len(rts), table=(hexb(output) if len(output) < 4000 else None),
                                     regen=('minimal:%d' % len(lines)) if label.startswith('minimal') else
                                           ('sized:%d' % len(pl)) if label.startswith('sized') else None),
@@ -798,7 +929,7 @@ def plan_lines(nets):
     return [b'%d,%d,0,%s,%d,%d\n' % (f, w, ip.encode(), fp, lp) for (f, ip, w, fp, lp) in nets]
 
 
-def delivery_oracle(ctx, tool, output, flags, exp, known_gap, strict, payload, cr, nframes):
+def plan_problems(flags, exp, known_gap, strict, cr, nframes):
     """Every network the property says is advertised is in the plan the pipe received, once, before NSLIST."""
     v4, v6, auton = flags[0] == '1', flags[1] == '1', flags[2] == '1'
     problems = []
@@ -830,10 +961,16 @@ def delivery_oracle(ctx, tool, output, flags, exp, known_gap, strict, payload, c
             it = iter(auto)
             if not all(any(x == y for y in it) for x in want_nogap):
                 problems.append('an expected network is missing from the plan')
+    return problems
+
+
+def delivery_oracle(ctx, tcase, exp, known_gap, strict, cr, nframes):
+    problems = plan_problems(tcase['flags'], exp, known_gap, strict, cr, nframes)
     if problems:
-        ctx.violation(KEY_DELIV, case=dict(stream='table', tool=tool, flags=flags, table=hexb(output)),
+        ctx.violation(KEY_DELIV, case=tcase,
                       expected='plan = ROUTES, configured includes, %d advertised networks as 2,<w>,0,<ip>,0,0, excludes, then NSLIST; '
-                               'one fw.start()' % len(exp),
+                               'one fw.start() (server verbosity %d, routing tool %s)'
+                               % (len(exp), tcase['verbose'], 'a real child process' if tcase['real'] else 'in memory'),
                       observed='; '.join(problems), kind='input')
 
 
@@ -931,11 +1068,14 @@ def gen_cases(ctx):
           b'Destination     Gateway         Genmask         Flags   MSS Window  irtt Iface\n',
           b'0.0.0.0         192.168.1.1     0.0.0.0         UG        0 0          0 wlan0\n',
           b'192.168.1.0     0.0.0.0         255.255.255.0   U         0 0          0 wlan0\n']
-    logs.append(table_case(ctx, 'n', t1, [('omit',), ('omit',), ('omit',), ('omit',), ('route', '192.168.1.0', 24)], '101'))
+    for v in (0, 1, 2):
+        logs.append(table_case(ctx, 'n', t1, [('omit',), ('omit',), ('omit',), ('omit',), ('route', '192.168.1.0', 24)], '101',
+                               verbose=v, real=(v == 2)))
     t2 = [b'\n', b'default via 192.168.1.1 dev wlan0  proto static\n',
           b'192.168.1.0/24 dev wlan0  proto kernel  scope link  src 192.168.1.1\n']
-    logs.append(table_case(ctx, 'i', t2, [('omit',), ('omit',), ('route', '192.168.1.0', 24)], '101'))
-    logs.append(table_case(ctx, 'i', [], [], '101'))
+    for v in (0, 1, 2):
+        logs.append(table_case(ctx, 'i', t2, [('omit',), ('omit',), ('route', '192.168.1.0', 24)], '101', verbose=v, real=(v == 1)))
+    logs.append(table_case(ctx, 'i', [], [], '101', real=True))
     logs.append(table_case(ctx, 'x', t2, [('omit',)] * 3, '101'))
     # every prefix length, with all host bits set, both tools
     for tool in 'in':
@@ -947,7 +1087,7 @@ def gen_cases(ctx):
             else:
                 lines.append(dotted(a) + b' 0.0.0.0 ' + dotted(contiguous(n)) + b' U 0 0 0 eth0\n')
             intents.append(('route', dotted(a).decode(), n))
-        logs.append(table_case(ctx, tool, lines, intents, '111'))
+        logs.append(table_case(ctx, tool, lines, intents, '111', verbose=1 if tool == 'i' else 2))
     # the F17 witnesses, one per table so that each is located
     for ln in [b'10.0.0.0/8x dev eth0\n', b'a/b/c\n', b'300.1.1.0/24 dev eth0\n', b'10.0.0.0/8 dev \xe9th0\n', b'\x1c\n',
                b'10.0.0.0/-8 dev eth0\n', b'10.0.0.0/-' + b'9' * 320 + b' dev eth0\n', b'10.0.0.0/' + b'1' * 4301 + b'\n']:
@@ -964,17 +1104,24 @@ def gen_cases(ctx):
         gen = iproute_line if tool != 'n' else netstat_line
         pairs = [gen(rng) for _ in range(n)]
         flags = rng.choice(['101', '101', '101', '111', '011', '001', '100', '110', '000', '010'])
-        logs.append(table_case(ctx, tool, [p[0] for p in pairs], [p[1] for p in pairs], flags))
+        logs.append(table_case(ctx, tool, [p[0] for p in pairs], [p[1] for p in pairs], flags,
+                               verbose=rng.choice([0, 0, 1, 2]), real=(i % 8 == 5)))
 
     # sizes around the frame limit and far beyond it
     for target in [65535, 65534, 65536, 65535 + 13]:
         lines, exp = sized_table(target)
         logs.append(table_case(ctx, 'i', lines, [('route', ip, w) for ip, w in exp], '101',
-                               perline=ctx.thorough, label='sized:%d' % target))
+                               perline=ctx.thorough, label='sized:%d' % target, verbose=1 if target == 65535 else 0))
     for n in [5461, 5462] + ([40000] if ctx.thorough else []):
         lines, exp = minimal_table(n)
         logs.append(table_case(ctx, 'i', lines, [('route', ip, w) for ip, w in exp], '101',
                                perline=(n <= 5462), label='minimal:%d' % n))
+    # the routing tool as a REAL child process writing to a REAL pipe: tables whose text exceeds the pipe buffer
+    # (but whose advertisement still fits one frame), so that a server that does not drain the pipe hangs
+    for n, v in [(3000, 0), (1200, 1)] + ([(4000, 2), (1000, 0)] if ctx.thorough else []):
+        lines, intents = big_table(n)
+        logs.append(table_case(ctx, 'i', lines, intents, '101', perline=ctx.thorough, label='realbig:%d' % n,
+                               verbose=v, real=True, regen='big:%d' % n))
     if ctx.thorough:
         # a big mixed table that still fits: thousands of lines of every class
         pairs = [iproute_line(rng) for _ in range(6000)]
@@ -1073,15 +1220,30 @@ def replay(ctx, rep):
             lines, _ = sized_table(int(regen.split(':')[1]))
         else:
             lines = split_lines(common.unhex(case['table']))
-        status, wire = run_server(case['tool'], b''.join(lines))
+        status, wire = run_server(case['tool'], b''.join(lines), verbose=int(case.get('verbose') or 0))
         return status[0] != 'sent', 'server.main on %d lines: %s' % (len(lines), ' '.join(status))
     if st == 'table':
-        output = common.unhex(case['table'])
-        status, wire = run_server(case['tool'], output)
+        regen = case.get('regen')
+        if regen and regen.startswith('big:'):
+            lines, intents = big_table(int(regen.split(':')[1]))
+            output = b''.join(lines)
+            exp = [e for e in (expected_of(it) for it in intents) if e is not None]
+        else:
+            output = common.unhex(case['table'])
+            exp = [tuple(e) for e in (case.get('expect') or [])]
+        verbose, real = int(case.get('verbose') or 0), bool(case.get('real'))
+        status, wire = run_server(case['tool'], output, verbose=verbose, real=real)
+        how = 'server.main (verbosity %d, tool %s) on %d bytes of tool output: ' % (
+            verbose, 'as a real child process' if real else 'in memory', len(output))
         if status[0] != 'sent':
-            return True, 'server.main: ' + ' '.join(status)
+            return True, how + ' '.join(status)
+        nframes = wire.count(struct.pack('!ccHH', b'S', b'S', 0, ssnet.CMD_ROUTES))
         cr = run_client(case['flags'], [wire])
-        return bool(cr.error) or cr.starts != 1, 'client: ' + cr.show()
+        if case.get('expect') is None and not regen:
+            return bool(cr.error) or cr.starts != 1, how + 'client: ' + cr.show()
+        problems = plan_problems(case['flags'], exp, [tuple(e) for e in (case.get('gap') or [])],
+                                 bool(case.get('strict', True)), cr, 1)
+        return bool(problems), how + ('; '.join(problems) if problems else 'plan holds all %d networks' % len(exp))
     if st == 'client2':
         cr = run_client(case['flags'], [SYNC, frame(ssnet, b'')], second_payload=common.unhex(case['payload']))
         return not cr.error, cr.show()
